@@ -127,7 +127,7 @@ def tlc_check(scratch, spec, cfg, timeout_s, workers=None, extra=()):
     return info
 
 
-def tlc_gen_replay(scratch, harness, family, spec, cfg, timeout_s, workers=None, jobs=None, extra=(), procs=None):
+def tlc_gen_replay(scratch, harness, family, spec, cfg, timeout_s, workers=None, jobs=None, extra=(), procs=None, race=False):
     """spec -> code: TLC prints behaviours, the harness replays them. Returns (tlcinfo, summary)."""
     sd = prepare_spec_dir(scratch)
     meta = tempfile.mkdtemp(prefix="meta_", dir=scratch)
@@ -138,7 +138,12 @@ def tlc_gen_replay(scratch, harness, family, spec, cfg, timeout_s, workers=None,
     hcmd = [harness, "replay", family, "-j", str(jobs or NCPU), "-procs", str(procs or 1), "-out", summ, "-tlclog", tlclog]
     t0 = time.time()
     p1 = subprocess.Popen(tcmd, cwd=sd, stdout=subprocess.PIPE, stderr=subprocess.STDOUT)
-    p2 = subprocess.Popen(hcmd, cwd=scratch, stdin=p1.stdout, stdout=subprocess.PIPE, stderr=subprocess.STDOUT, text=True)
+    henv = dict(os.environ)
+    racelog = os.path.join(scratch, tag + ".race")
+    if race:
+        # collect race reports without aborting the replay; they are turned into violations below
+        henv["GORACE"] = "exitcode=0 log_path=%s" % racelog
+    p2 = subprocess.Popen(hcmd, cwd=scratch, stdin=p1.stdout, stdout=subprocess.PIPE, stderr=subprocess.STDOUT, text=True, env=henv)
     p1.stdout.close()
     hout, _ = p2.communicate()
     rc1 = p1.wait()
@@ -162,6 +167,20 @@ def tlc_gen_replay(scratch, harness, family, spec, cfg, timeout_s, workers=None,
         raise MachineryError("replay harness: " + summary["fatal"])
     if summary["lines"] == 0:
         raise MachineryError("TLC produced no behaviours for %s/%s (dead generator)" % (spec, cfg))
+    if race:
+        import glob
+        reports = []
+        for f in glob.glob(racelog + ".*"):
+            reports.append(open(f).read())
+        nrep = sum(r.count("WARNING: DATA RACE") for r in reports)
+        summary.setdefault("extra", {})["race_reports"] = nrep
+        if nrep:
+            first = "\n".join(reports)[:3000]
+            mm = {"sig": "conc:data-race", "detail": "the Go race detector reported %d data race(s) while the schedules were replayed:\n%s" % (nrep, first),
+                  "case": {"race_report": first}, "noreplay": True}
+            summary["mismatches"] = [mm] + (summary.get("mismatches") or [])
+            summary["mismatch_count"] = summary.get("mismatch_count", 0) + nrep
+            summary.setdefault("sig_counts", {})["conc:data-race"] = nrep
     return info, summary
 
 
@@ -405,7 +424,7 @@ class Ctx:
 
     def gen_replay(self, res, family, spec, cfg, timeout_s=None, **kw):
         timeout_s = timeout_s or (600 if self.quick else 3600)
-        info, summ = tlc_gen_replay(self.scratch, self.harness(), family, spec, cfg, timeout_s, **kw)
+        info, summ = tlc_gen_replay(self.scratch, self.harness(race=kw.get("race", False)), family, spec, cfg, timeout_s, **kw)
         res.add_tlc(info)
         res.add_summary(family, summ)
         return info, summ
